@@ -1334,21 +1334,15 @@ class Concatenate(CanBehaveLikeAVariable[T]):
         if self._id_ in sources:
             yield sources
             return
-        all_values = defaultdict(list)
         # The concatenated value exists (as an empty list) even when there is nothing to concatenate.
-        all_values[self._id_] = []
+        concatenated = []
         for child_v in self._child_._evaluate__(sources):
-            child_v = copy(child_v)
-            for id_, val in child_v.items():
-                if id_ == self._child_._id_:
-                    child_v_unwrapped = val.value
-                    if not is_iterable(child_v_unwrapped):
-                        child_v_unwrapped = [child_v_unwrapped]
-                    all_values[self._id_].extend(child_v_unwrapped)
-                all_values[id_].append(val)
-            for s_id, s_val in sources.items():
-                all_values[s_id].append(s_val)
-        yield {k: HashedValue(v) for k, v in all_values.items()}
+            child_v_unwrapped = child_v[self._child_._id_].value
+            if not is_iterable(child_v_unwrapped):
+                child_v_unwrapped = [child_v_unwrapped]
+            concatenated.extend(child_v_unwrapped)
+        # The single value stands for all bindings of the variables it was collected over, none of them is bound by it.
+        yield {**sources, self._id_: HashedValue(concatenated)}
 
     @property
     def _name_(self):
